@@ -110,7 +110,7 @@ CHECKS.update({
 CHECKS.update({
     "C01": ("fault_enumeration",
             "crash-point enumeration over generated histories: LD_PRELOAD syscall trace -> file-system model -> every effect-log prefix x failure model, recovered by the real strict recovery and compared with the reference model",
-            "Each generated history (writes, batch deletes, metadata updates, manual snapshots, clean restarts; snapshot interval x rotation x capacity x 4 fsync policies) runs once under the syscall tracer; EVERY prefix of its file-system effect log and torn prefixes (1, half, len-1 bytes) of every write is a crash point; each is materialised under process kill and, for fsync-every-write policies, under power loss (drop all unsynced + 2 seeded in-order prefix choices per file/directory) and recovered with the real strict recover: start-up must succeed and the dump must equal model(acknowledged) or model(acknowledged + in-flight). One state in eight is crashed again at every effect of its own recovery. 480 histories / ~140k distinct crash states in the quick tier; complete over the crash points of each generated history.",
+            "Each generated history (writes, batch deletes, metadata updates, manual snapshots, clean restarts; snapshot interval x rotation x capacity x 4 fsync policies) runs once under the syscall tracer; EVERY prefix of its file-system effect log and torn prefixes (1, half, len-1 bytes) of every write is a crash point; each is materialised under process kill and, for fsync-every-write policies, under power loss (drop all unsynced + 2 seeded in-order prefix choices per file/directory) and recovered with the real strict recover: start-up must succeed and the dump must equal model(acknowledged) or model(acknowledged + in-flight). One state in eight is crashed again at every effect of its own recovery. 3,000 histories / ~875k crash states in the quick tier; complete over the crash points of each generated history. Part server_kill: the real kyrodb_server is SIGKILLed after a generated number of acknowledgements plus 0-3000 us while a client streams inserts / deletes / batch deletes and records every acknowledgement (fsync policy x snapshot interval x rotation); optional second SIGKILL 1-30 ms into the restart; strict start-up must succeed and the census must equal the acknowledged operations, optionally plus the one in flight (400 kills in the quick tier).",
             "Trusts the syscall shim to see every file-system effect (open/write/fsync/fdatasync/rename/unlink/truncate families are interposed) and the flat-directory file-system model. Power-loss model exactly as written in the property. Crash points before the database's initial creation finished are not explored. One listed known finding (C01-F3, partial batch delete) is counted and skipped.",
             "DESIGN.md §3 C01, §2.4"),
     "C03": ("fault_enumeration",
@@ -129,7 +129,7 @@ CHECKS.update({
     "C19": ("exploration",
             "property-based testing on the real clock with bounds that time can only loosen; clock-free rules on sequential scripts",
             "Generated (rate, global rate, tenants, threads, call/gap script) cases against RateLimiter: for every window of calls, admitted <= burst + rate x (caller-clock interval from before the first to after the last call) + 1, per tenant and globally, also with 2-8 real threads; on sequential scripts additionally: a global refusal leaves the tenant's tokens unchanged, and no call is refused while the tenant's admitted count is below its rate and the global budget has room. ~5 % of the cases are a scripted drain / refused-hammer / 1.1 s idle / burst pattern.",
-            "Concurrency uses the OS schedule (the bound is sound for every schedule). The server-level max_qps row is part of the server driver.",
+            "Concurrency uses the OS schedule (the bound is sound for every schedule). The server-level max_qps row is part of the server driver. Part server: the real binary with auth and rate limiting on, tenant max_qps {1,2,5,20} x global {3, none} x 1-4 concurrent gRPC clients x 10-60 calls with a pause; admitted = any answer other than RESOURCE_EXHAUSTED; the same window bound on the callers' clocks.",
             "DESIGN.md §3 C19"),
 })
 
